@@ -153,9 +153,11 @@ class MathParser:
                 continue
             elif type(tok) is defs.EndToken:
                 t, stop = parser.end_environment(buf, tok, env_stop)
-                out += t
                 if stop:
+                    out += t
                     break
+                # as for \begin: replacement tokens have to be processed
+                buf.back(t)
                 continue
             elif type(tok) is defs.MacroToken:
                 if tok.txt in parms.math_text_macros:
